@@ -4,6 +4,9 @@
    no handle on the import system.  The only place where the implementation used to touch it before the
    verdict (LossNode.__init__, defect D05, repaired) shows up in the model as `init_events`. *)
 From Skv Require Import PyStr Json Node GetTree Unsafe Walk Construct.
+From Coq Require Import String List.
+From Skv Require Import CallGraph CallGraphFacts.
+From Gen Require CallGraphGen.
 
 Theorem C02_no_events_before_verdict : forall t : node, init_events t = [].
 Proof. intros t. reflexivity. Qed.
@@ -18,3 +21,33 @@ Definition C02_signatures :=
    get_untrusted_types : env -> json -> res (list pstr),
    load_audit : env -> json -> targ -> res node,
    visualize_stream : env -> list pstr -> json -> trust -> res stream).
+
+(* ---- the translated source ------------------------------------------------------------------------------------
+   Gen.CallGraphGen is regenerated on every run by harness/callgraph.py from the SOURCE of skops/io: for every
+   function its possible callees inside skops.io (over-approximated: methods by name, any constructor for a
+   looked-up class, ...) and the forbidden primitives it uses (resolve: gettype/_import_obj/importlib/__import__/
+   eval/exec/pickle/computed getattr;  fs: open/os/shutil/tempfile/subprocess/write methods).  load()/loads() are
+   split at their call of audit_tree.  `reach` is the reflexive-transitive closure of the call relation. *)
+
+(* Whatever get_untrusted_types, visualize, and load/loads up to and including the audit can call -- directly or
+   through any chain of calls inside skops.io -- uses none of the forbidden primitives. *)
+Theorem C02_static_inert :
+  forall e f, In e CallGraphGen.entries -> reach CallGraphGen.callgraph e f -> inert CallGraphGen.callgraph f = true.
+Proof. apply (static_inert _ CallGraphGen.reach_hint). vm_compute. reflexivity. Qed.
+Print Assumptions C02_static_inert.
+
+(* the entry points are the ones the property names *)
+Theorem C02_static_entries :
+  CallGraphGen.entries = ["_persist.load@pre"; "_persist.loads@pre"; "_persist.get_untrusted_types"; "_visualize.visualize"]%string.
+Proof. reflexivity. Qed.
+Print Assumptions C02_static_entries.
+
+(* non-vacuity: the same analysis DOES find a forbidden primitive behind the verdict (construct resolves names) *)
+Theorem C02_static_not_blind :
+  exists f, reach CallGraphGen.callgraph "_persist.load@post" f /\ inert CallGraphGen.callgraph f = false.
+Proof.
+  exists (path_end "_persist.load@post" CallGraphGen.post_witness_path). split.
+  - apply path_reach. vm_compute. reflexivity.
+  - vm_compute. reflexivity.
+Qed.
+Print Assumptions C02_static_not_blind.
